@@ -50,7 +50,7 @@ pub mod c13_token_not_clone {}
 ///
 /// ```compile_fail,E0451
 /// fn forge(t: fastcgi_server::async_io::Token) -> fastcgi_server::async_io::Token {
-///     fastcgi_server::async_io::Token { _sg: panic!(), ..t }
+///     fastcgi_server::async_io::Token { ..t } // rebuilding needs access to every (private) field
 /// }
 /// ```
 ///
@@ -114,7 +114,7 @@ pub mod c07_no_use_after_close {}
 ///
 /// ```compile_fail,E0451
 /// fn forge<W>(w: fastcgi_server::async_io::StreamWriter<W>) -> fastcgi_server::async_io::StreamWriter<W> {
-///     fastcgi_server::async_io::StreamWriter { head_idx: 0, ..w }
+///     fastcgi_server::async_io::StreamWriter { ..w } // rebuilding needs access to every (private) field
 /// }
 /// ```
 ///
